@@ -19,8 +19,11 @@ func (c *gctx) nRules(label string) int {
 	case 6:
 		return 3
 	default:
-		if c.wild() {
-			return 0 // empty, non-nil rule set
+		// an empty, non-nil rule set: what the reader returns for a rule set
+		// table with count 0 (some producers write one instead of a null
+		// offset); rare outside the wild mode
+		if c.wild() || rapid.IntRange(0, 3).Draw(c.t, label+"Empty") == 0 {
+			return 0
 		}
 		return 1
 	}
